@@ -278,7 +278,7 @@ def _explore(ctx: Ctx, pid: str) -> None:
             cl = H.config_lines(world)
             ml, evs = H.model_lines(world)
             metas.append((world, len(lines) + len(cl), evs, cfg, executed, seed, cls))
-            lines += cl + ml
+            lines += cl + ml + ["refhyp"]
     outs = ctx.lean("Drivers/C10.lean", lines)
     for world, off, evs, cfg, executed, seed, cls in metas:
         ds = H.compare(world, outs[off:off + len(evs)], evs)
@@ -286,6 +286,23 @@ def _explore(ctx: Ctx, pid: str) -> None:
             ctx.disagree(f"scheduler model vs DefaultScheduler: {what}", detail[:1500], {"cfg": cfg, "ops": executed, "seed": seed, "class": cls})
         for o in outs[off:off + len(evs)]:
             ctx.count("model:" + o.split(" ")[0])
+        # hypothesis of C10.sched_refines_ledger (flat hardware configuration + protocol, evaluated by the Lean driver with
+        # the decidable Refine.OkS at every step) and whether some step raised
+        hyp = outs[off + len(evs)].split(" ")
+        if hyp[0] == "true":
+            ctx.count("refinement-hypothesis:holds")
+            if hyp[1] == "false":
+                ctx.count("refinement-hypothesis:holds-and-no-step-raised")
+                # the theorem's conclusion, observed on the REAL state: reserved cores/memory = what the occupying jobs need
+                use = world.true_usage()
+                for lname, h in world.scheduler.hardware_locations.items():
+                    u = use.get(lname, {"cores": 0, "memory": 0})
+                    if h.cores != u["cores"] or h.memory != u["memory"]:
+                        ctx.disagree("conclusion of sched_refines_ledger on the real scheduler",
+                                     f"{lname}: reserved cores/memory {h.cores}/{h.memory}, occupying jobs need {u['cores']}/{u['memory']}",
+                                     {"cfg": cfg, "ops": executed, "seed": seed, "class": cls})
+        else:
+            ctx.count("refinement-hypothesis:does-not-hold")
 
 
 def replay(ctx: Ctx, pid: str, data: Any) -> None:
